@@ -89,8 +89,9 @@ impl Rec {
 pub fn esc(s: &str) -> String {
     s.replace('%', "%25").replace(' ', "%20")
 }
+/// `%2C` = a `,` inside a list element (only written by the lex probes)
 pub fn unesc(s: &str) -> String {
-    s.replace("%20", " ").replace("%25", "%")
+    s.replace("%20", " ").replace("%2C", ",").replace("%25", "%")
 }
 
 // ---------- simulated service manager and node RPC ----------
